@@ -424,6 +424,7 @@ static void mode_O(const std::string& id, const std::vector<std::string>& toks)
     try {
         XalanTransformerOutputStream os(XalanMemMgrs::getDefaultXercesMemMgr(), &sink, sink_write, sink_flush);
         if (toks[2] == "u16") os.setOutputEncoding(XalanDOMString("UTF-16"));
+        else if (toks[2] != "loc") os.setOutputEncoding(XalanDOMString(toks[2].c_str()));
         sink.chunks.clear(); sink.all.clear();       // drop the byte order mark written by setOutputEncoding
         os.setBufferSize((XalanOutputStream::size_type) std::strtoul(toks[3].c_str(), 0, 10));
         for (size_t k = 4; k < toks.size(); ++k) {
